@@ -69,28 +69,104 @@ def _variant(I, o):
 
 
 # ------------------------------------------------------------------ producer
+def _core_api(facts, name):
+    bs = [b for bid, b in facts.bodies.items() if b.get("name") == name and (b.get("impl_self") or "").startswith("crate::core::paseto::Paseto<") and b.get("kind") == "AssocFn"
+          and not b.get("impl_trait") and "{closure" not in bid]
+    return bs[0] if len(bs) == 1 else None
+
+
+def producer_selves(facts, I, V, P, footer, assertion):
+    """[(state, cell of the core builder)] obtained through the public API - builder(); set_payload(M); set_footer(F) / set_implicit_assertion(A)
+    for the cases asked for - so that nothing is assumed about how Paseto keeps its state; None when that cannot be done (then the
+    state is written down field by field as the current source declares it)."""
+    fb, sp, sf, sa = _core_api(facts, "builder"), _core_api(facts, "set_payload"), _core_api(facts, "set_footer"), _core_api(facts, "set_implicit_assertion")
+    if fb is None or sp is None or sf is None or (sa is None and V in ("V3", "V4")):
+        return None
+    I.root_tparams = {"Version": "crate::core::version::%s::%s" % (V.lower(), V), "Purpose": "crate::core::purpose::%s::%s" % (P.lower(), P)}
+
+    def ok_(outs):
+        return outs and all(o.kind == "return" and not o.state.unmodelled and not any("undecided" in n for n in o.state.notes) for o in outs)
+    outs = I.run(fb, [], A.State())
+    if not ok_(outs):
+        return None
+    sts = [(o.state, o.state.new_cell(o.value)) for o in outs]
+
+    def step(sts, body, mkarg):
+        res = []
+        for s, c in sts:
+            o2 = I.run(body, [A.Ptr(c), mkarg(s)], s)
+            if not ok_(o2):
+                return None
+            res += [(o.state, c) for o in o2]
+        return res
+    sts = step(sts, sp, lambda s: A.Struct("crate::core::payload::Payload", None, {"0": A.Seq("M", Aff.sym("len(M)"), kind="str", attrs={"utf8": True})}))
+    if sts is None:
+        return None
+    for name, carrier, setter, fixed in (("F", FOOT, sf, footer), ("A", ASSERT, sa, assertion)):
+        if setter is None or (name == "A" and V not in ("V3", "V4")):
+            for s, _c in sts:
+                s.cond.append("opt.%s is None" % name)
+            continue
+        nxt = []
+        variants = ["none", "set"] if fixed is None else (["none"] if fixed is False else ["set"])
+        for s, c in sts:
+            for var in variants:
+                s2 = s.clone() if len(variants) > 1 else s
+                if var == "none":
+                    s2.cond.append("opt.%s is None" % name)
+                    nxt.append((s2, c))
+                    continue
+                nm = name if fixed in (None, False) else fixed
+                val = A.StrV("") if nm == "" else A.Seq(nm, Aff.sym("len(%s)" % nm), kind="str")
+                r = step([(s2, c)], setter, lambda s_: A.Struct(carrier, None, {"0": val}))
+                if r is None:
+                    return None
+                for s3, c3 in r:
+                    s3.cond.append("opt.%s is Some" % name)
+                    if nm == "":
+                        s3.facts[("streq", name)] = ""
+                nxt += r
+        sts = nxt
+    I.root_tparams = None
+    return sts
+
+
 def run_producer(facts, e, footer=None, assertion=None):
-    """interpret try_encrypt / try_sign; footer / assertion: None = symbolic option, False = absent, '' = empty, 'F' = that name"""
+    """interpret try_encrypt / try_sign; footer / assertion: None = both absent and present (symbolic), False = absent, '' = empty, 'F' = that name"""
     V, P = e.vp
     v = M.view(facts, e.body)
     I = PS.interp(facts)
+
+    def call_args(st):
+        args = []
+        for i in range(2, v.nargs + 1):
+            ty = v.local_ty(i)
+            if "PasetoSymmetricKey" in ty:
+                args.append(A.Ptr(st.new_cell(_key_struct(ty, "K", 32))))
+            elif "PasetoNonce" in ty:
+                args.append(A.Ptr(st.new_cell(A.Struct("crate::core::key::paseto_nonce::PasetoNonce", None, {"version": A.UNIT, "purpose": A.UNIT, "key": A.Seq("N", Aff(32), kind="bytes")}))))
+            elif "PasetoAsymmetricPrivateKey" in ty:
+                args.append(A.Ptr(st.new_cell(_key_struct(ty, "SK", {"V2": 64, "V4": 64, "V3": 48}.get(V)))))
+            else:
+                args.append(A.Sym("arg%d" % i))
+        return args
+    selves = None
+    try:
+        selves = producer_selves(facts, I, V, P, footer, assertion)
+    except Exception:
+        selves = None
+    I.root_tparams = None
+    if selves:
+        outs = []
+        for s, c in selves:
+            outs += I.run(e.body, [A.Ptr(c)] + call_args(s), s)
+        return I, outs
     st = A.State()
     hdr = "%s.%s." % (V.lower(), P.lower())
     me = A.Struct(PAS, None, {"header": A.Struct("crate::core::header::Header", None, {"version": A.UNIT, "purpose": A.UNIT, "header": A.StrV(hdr)}),
                               "payload": A.Struct("crate::core::payload::Payload", None, {"0": A.Seq("M", Aff.sym("len(M)"), kind="str", attrs={"utf8": True})}),
                               "footer": _opt("F", FOOT, footer), "implicit_assertion": _opt("A", ASSERT, assertion)})
-    args = [A.Ptr(st.new_cell(me))]
-    for i in range(2, v.nargs + 1):
-        ty = v.local_ty(i)
-        if "PasetoSymmetricKey" in ty:
-            args.append(A.Ptr(st.new_cell(_key_struct(ty, "K", 32))))
-        elif "PasetoNonce" in ty:
-            args.append(A.Ptr(st.new_cell(A.Struct("crate::core::key::paseto_nonce::PasetoNonce", None, {"version": A.UNIT, "purpose": A.UNIT, "key": A.Seq("N", Aff(32), kind="bytes")}))))
-        elif "PasetoAsymmetricPrivateKey" in ty:
-            args.append(A.Ptr(st.new_cell(_key_struct(ty, "SK", {"V2": 64, "V4": 64, "V3": 48}.get(V)))))
-        else:
-            args.append(A.Sym("arg%d" % i))
-    outs = I.run(e.body, args, st)
+    outs = I.run(e.body, [A.Ptr(st.new_cell(me))] + call_args(st), st)
     return I, outs
 
 
